@@ -292,7 +292,7 @@ class MiniEval:
                         raise Spin(st)
                     seen_envs.add(snap)
                 if n > self.loop_cap:
-                    raise Unsupported('loop bound exceeded')
+                    raise Unsupported(f'loop bound exceeded (line {st.lineno})')
                 try:
                     self.block(st.body)
                 except _Continue:
